@@ -51,6 +51,9 @@ type Event struct {
 	Depth int
 	Pure  bool
 	Pos   token.Pos
+	// ArgVals: for arguments that point to a local cell (&T{...}), the value of
+	// the cell when the call was made (nil entries otherwise).
+	ArgVals []*Term
 }
 
 // condPos: go/ssa gives If no position; use the condition's (or the nearest
@@ -1001,9 +1004,12 @@ func (e *engine) doCall(fr *frame, site ssa.Instruction, c *ssa.CallCommon, preF
 			name = funcName(fun.Fn)
 		}
 	}
+	if name == "dynamic" && fun != nil && fun.Op == "global" {
+		name = fun.Name // call through a package-level function variable (e.g. sdk.MsgTypeURL)
+	}
 	if target != nil && e.inlineable(target, fr.depth+1) {
 		callT := &Term{Op: "call", Name: name, Args: args, ID: e.newID(), Typ: resT, Site: site}
-		e.emit(Event{Kind: EvEnter, Call: callT, Instr: site, Fn: fr.fn, Depth: fr.depth})
+		e.emit(Event{Kind: EvEnter, Call: callT, Instr: site, Fn: fr.fn, Depth: fr.depth, ArgVals: e.argVals(args)})
 		nf := &frame{fn: target, env: map[ssa.Value]*Term{}, visits: map[*ssa.BasicBlock]int{}, depth: fr.depth + 1, free: free}
 		for i, p := range target.Params {
 			if i < len(args) {
@@ -1082,7 +1088,21 @@ func (e *engine) filled(t *Term) *Term {
 	return t
 }
 
+func (e *engine) argVals(args []*Term) []*Term {
+	var out []*Term
+	for i, a := range args {
+		if a != nil && a.Op == "addr" {
+			if out == nil {
+				out = make([]*Term, len(args))
+			}
+			out[i] = e.load(a.Args[0], nil)
+		}
+	}
+	return out
+}
+
 func (e *engine) afterOpaque(fr *frame, ev Event, args []*Term, cont func(*Term)) {
+	ev.ArgVals = e.argVals(args)
 	e.emit(ev)
 	if !ev.Pure {
 		// out-parameters: pointers to local cells handed to an opaque callee
